@@ -1172,6 +1172,29 @@ func ruleNeverGivesUp(w *World, r *Run, rule string) {
 				}
 			}
 			done := lastRecv != nil && lastRecv.Recv.Kind == "call" && lastRecv.Recv.Name == "(context.Context).Done" && lastRecv.Recv.Args[1] == ctx
+			// … or the path has found ctx.Err() non-nil: the context has ended
+			if !done {
+				for _, ce := range calls(s, "(context.Context).Err") {
+					if ce.Recv == ctx {
+						if k, isNil, _ := nilFact(s, ce.Res); k && !isNil {
+							done = true
+						}
+					}
+				}
+			}
+			// … or nothing has been started yet: the arguments were found unusable before the first cycle (no wait, no call
+			// of the cycle function, no connection attempt)
+			if !done && lastRecv == nil && len(s.Rets) == 1 && neverNil(s.Rets[0]) {
+				started := false
+				for _, ev := range s.Events {
+					if ev.Kind == "call" && (ev.Callee == fnFeedOnce || ev.Callee == "dyn" || strings.Contains(ev.Callee, "Dial") || strings.HasPrefix(ev.Callee, "(*net/http.Client).")) {
+						started = true
+					}
+				}
+				if !started {
+					done = true
+				}
+			}
 			if !done && allowErrRet != nil && allowErrRet(s) {
 				r.Pass(rule, name+" | returns only when its context ends", w.pos(s.RetPos), "")
 				continue
